@@ -437,7 +437,60 @@ func (c *Ctx) checkExec(rule string) {
 	}
 	errNil := func(cond ssa.Value) (bool, bool) { m, t := errNonNil(cond); return m, !t }
 	okCnt := len(incs[fErr]) == 1 && len(incs[fOK]) == 1
-	if okCnt {
+	if !okCnt && errV != nil {
+		// the counter may be selected first and incremented once (`outcome := c.success; if err != nil
+		// { outcome = c.err }; outcome.Inc(1)`): judge every Inc by what its receiver is, and what is
+		// known about the function's error, on each feasible path that reaches it
+		var allInc []ssa.Instruction
+		instrsOf(fn, func(in ssa.Instruction) {
+			if ci, ok := in.(ssa.CallInstruction); ok {
+				if _, isGo := in.(*ssa.Go); isGo {
+					return
+				}
+				if _, m := ifaceCall(ci); m != nil && m == mInc {
+					allInc = append(allInc, in)
+				}
+			}
+		})
+		okSel := len(allInc) > 0
+		for _, inc := range allInc {
+			ci := inc.(ssa.CallInstruction)
+			if k, isK := constInt(ci.Common().Args[0]); !isK || k != 1 {
+				okSel = false
+			}
+			rcv, _ := ifaceCall(ci)
+			nStates := 0
+			walkThreaded(pstate{b: fn.Blocks[0]}, func(st pstate) bool {
+				if st.b != inc.Block() {
+					return true
+				}
+				nStates++
+				lf, base := loadedField(st.resolve(rcv))
+				if (lf != fErr && lf != fOK) || canon(base) != recv {
+					okSel = false
+					return false
+				}
+				t, known := st.fact(errV)
+				if !known || t != (lf == fErr) {
+					okSel = false
+					return false
+				}
+				return true
+			}, nil)
+			if nStates == 0 {
+				okSel = false
+			}
+		}
+		if okSel {
+			cnt := c.newPathCounter(isIn(allInc), 0).fn(fn, 0)
+			okSel = cnt.min == 1 && cnt.max == 1
+		}
+		if okSel {
+			okCnt = true
+			incs[fErr], incs[fOK] = nil, nil
+		}
+	}
+	if okCnt && len(incs[fErr]) == 1 {
 		e, s := incs[fErr][0], incs[fOK][0]
 		okCnt = guardedByEdge(e, errNonNil) != nil && guardedByEdge(s, errNil) != nil
 		for _, i := range []ssa.Instruction{e, s} {
